@@ -242,14 +242,17 @@ def run_groups(prop, cfg, tier):
                 result["bounded"].append({"name": b["name"], "status": "undecided", "failed_checks": [], "checks": 0,
                                           "reason": err, "bound": b["bound"], "group": b["group"]})
                 continue
-        r = run_kani(bsrc, [b["name"]], extra_args=b.get("args"), timeout=b.get("timeout", 3600), group=b["group"])
+        # one entry may name several harnesses of the same group and bound: one cargo-kani invocation, one record each
+        bnames = b.get("names") or [b["name"]]
+        r = run_kani(bsrc, bnames, extra_args=b.get("args"), timeout=b.get("timeout", 3600), group=b["group"])
         parsed = parse_output(r["out"])
-        h = parsed.get(b["name"], {"name": b["name"], "status": "undecided", "failed_checks": [], "checks": 0,
-                                   "reason": "no result: " + r["out"].strip()[-300:]})
-        h["bound"] = b["bound"]
-        h["group"] = b["group"]
-        h["time_s"] = round(r["wall_s"], 1)
-        result["bounded"].append(h)
+        for bn in bnames:
+            h = parsed.get(bn, {"name": bn, "status": "undecided", "failed_checks": [], "checks": 0,
+                                "reason": "no result: " + r["out"].strip()[-300:]})
+            h["bound"] = b["bound"]
+            h["group"] = b["group"]
+            h["time_s"] = round(r["wall_s"], 1) if len(bnames) == 1 else h.get("time_s")
+            result["bounded"].append(h)
     return result
 
 
